@@ -47,6 +47,23 @@ const struct cbor_callbacks rec_table = {
     .tag = r_tag, .float2 = r_float2, .float4 = r_float4, .float8 = r_float8,
     .undefined = r_undef, .null = r_null, .boolean = r_bool, .indef_break = r_break};
 
+/* A table in which only the callback for `slot` exists (slot < 0: none at all). A client that expects one kind of head
+ * owes the decoder no other callback: any call through another slot is a call through NULL. */
+struct cbor_callbacks rec_table_only(int slot) {
+  struct cbor_callbacks t;
+  memset(&t, 0, sizeof t);
+  switch (slot) {
+    case S_UINT8: t.uint8 = r_uint8; break; case S_UINT16: t.uint16 = r_uint16; break; case S_UINT32: t.uint32 = r_uint32; break; case S_UINT64: t.uint64 = r_uint64; break;
+    case S_NEGINT8: t.negint8 = r_negint8; break; case S_NEGINT16: t.negint16 = r_negint16; break; case S_NEGINT32: t.negint32 = r_negint32; break; case S_NEGINT64: t.negint64 = r_negint64; break;
+    case S_BSTR_START: t.byte_string_start = r_bstr_start; break; case S_BSTR: t.byte_string = r_bstr; break; case S_STR: t.string = r_str; break; case S_STR_START: t.string_start = r_str_start; break;
+    case S_INDEF_ARRAY: t.indef_array_start = r_indef_array; break; case S_ARRAY: t.array_start = r_array; break; case S_INDEF_MAP: t.indef_map_start = r_indef_map; break; case S_MAP: t.map_start = r_map; break;
+    case S_TAG: t.tag = r_tag; break; case S_FLOAT2: t.float2 = r_float2; break; case S_FLOAT4: t.float4 = r_float4; break; case S_FLOAT8: t.float8 = r_float8; break;
+    case S_UNDEF: t.undefined = r_undef; break; case S_NULL: t.null = r_null; break; case S_BOOL: t.boolean = r_bool; break; case S_BREAK: t.indef_break = r_break; break;
+    default: break;
+  }
+  return t;
+}
+
 /* ------------------------------------------------------------------ chains */
 const char* const chain_names[CH_NKINDS] = {"tag", "def-array", "indef-array", "def-map-key", "def-map-value",
                                             "indef-map-key", "indef-map-value", "mixed", "tag-2byte-head"};
@@ -81,7 +98,23 @@ void gen_chain(int kind, size_t depth, int leaf, struct vh_buf* out, size_t* ope
   if (leaf == 0) vb_u8(out, 0x05);
   else if (leaf == 3) vb_u8(out, 0x80); /* empty definite array: completes at its head, never becomes open */
   else if (leaf == 4) vb_u8(out, 0xa0); /* empty definite map: likewise */
-  else {
+  else if (leaf == 5 || leaf == 6) { /* heavy scalar leaves: one 2 MiB definite string */
+    vb_u8(out, leaf == 5 ? 0x5a : 0x7a); vb_be(out, CH_HEAVY_BYTES, 4);
+    for (size_t i = 0; i < CH_HEAVY_BYTES; i++) vb_u8(out, (uint8_t)('a' + i % 23));
+  } else if (leaf == 7) { /* chunked text with one 2 MiB chunk */
+    vb_u8(out, 0x7f);
+    levels++;
+    if (open_end) open_end[levels] = out->n;
+    vb_u8(out, 0x7a); vb_be(out, CH_HEAVY_BYTES, 4);
+    for (size_t i = 0; i < CH_HEAVY_BYTES; i++) vb_u8(out, (uint8_t)('a' + i % 23));
+    vb_u8(out, 0xff);
+  } else if (leaf >= 8 && leaf <= 10) { /* wide containers: 400000 members / 200000 pairs of one-byte integers */
+    if (leaf == 10) vb_u8(out, 0x9f); else { vb_u8(out, leaf == 8 ? 0x9a : 0xba); vb_be(out, leaf == 8 ? CH_HEAVY_MEMBERS : CH_HEAVY_MEMBERS / 2, 4); }
+    levels++;
+    if (open_end) open_end[levels] = out->n;
+    for (size_t i = 0; i < CH_HEAVY_MEMBERS; i++) vb_u8(out, (uint8_t)(i % 24));
+    if (leaf == 10) vb_u8(out, 0xff);
+  } else {
     vb_u8(out, leaf == 1 ? 0x5f : 0x7f);
     levels++;
     if (open_end) open_end[levels] = out->n;
